@@ -96,7 +96,8 @@ def run(prop, tier_, cfg, sample=None, jobs=12):
     # openat2 may answer EAGAIN whenever a rename or mount happens anywhere on the machine while a
     # walk contains '..' (DESIGN 5.1): such cases are re-run, and counted inconclusive if it persists
     for attempt in range(5):
-        again = [d["case"] for d in per_case.values() if ("err", "EAGAIN") in (d.get("lib_kernel"), d.get("kernel"))]
+        # (the library turns 16 consecutive EAGAINs into a safety violation: same cause, same treatment)
+        again = [d["case"] for d in per_case.values() if ("err", "EAGAIN") in (d.get("lib_kernel"), d.get("kernel")) or d.get("lib_kernel") == ("err", "SAFETY")]
         if not again:
             break
         stats["eagain_reruns"] += len(again)
@@ -155,7 +156,7 @@ def evaluate(per_case, trees, v, stats, samples):
         if has_special:
             nontrivial += 1
         kern = d.get("kernel")
-        if ("err", "EAGAIN") in (kern, d.get("lib_kernel")):
+        if ("err", "EAGAIN") in (kern, d.get("lib_kernel")) or d.get("lib_kernel") == ("err", "SAFETY"):
             stats["inconclusive_eagain"] += 1
             continue
         if kern is not None and kern != expect and not (c["budget"]):
